@@ -18,7 +18,7 @@ if os.path.isdir(os.path.join(awt, "_seed")):
     shutil.rmtree(dst, ignore_errors=True)
     shutil.copytree(os.path.join(awt, "_seed"), dst)
 def sh(cmd, **kw):
-    p = subprocess.run(cmd, shell=True, stdout=subprocess.PIPE, stderr=subprocess.STDOUT, text=True, **kw)
+    p = subprocess.run(cmd, shell=True, stdout=subprocess.PIPE, stderr=subprocess.STDOUT, text=True, errors="replace", **kw)
     return p.returncode, p.stdout
 meta = dict(id=sid, property=pid, ran=[])
 wt = "/tmp/seedverify-" + sid
